@@ -7,7 +7,13 @@ import (
 	"runtime"
 	"time"
 
+	"github.com/oasisprotocol/oasis-core/go/common/crypto/hash"
+	"github.com/oasisprotocol/oasis-core/go/common/crypto/signature"
+	roothash "github.com/oasisprotocol/oasis-core/go/roothash/api"
+	"github.com/oasisprotocol/oasis-core/go/roothash/api/commitment"
+
 	"verifharness/internal/coqout"
+	"verifharness/internal/muxdrv"
 	"verifharness/internal/prng"
 )
 
@@ -103,6 +109,53 @@ func runMux(seed uint64, n int, out string, rc *Case) {
 		return
 	}
 	probe() // first: the check state still equals the committed state
+	// structured roothash evidence through CheckTx (submitEvidence -> Evidence.ValidateBasic runs
+	// before any signature or state check): every combination of absent optional header fields in
+	// both commitments, plus random failure / non-failure / equal / unequal variants
+	{
+		evr := prng.New(seed ^ 0xe71d)
+		cs := evidenceSystematic()
+		for i := 0; i < 150; i++ {
+			cs = append(cs, genEvidenceCase(evr.Fork()))
+		}
+		k := m.g.Accounts[15].Key
+		for _, c := range cs {
+			ev := &roothash.Evidence{ID: m.rt1, EquivocationExecutor: &roothash.EquivocationExecutorEvidence{CommitA: c.Ev[0].build(), CommitB: c.Ev[1].build()}}
+			raw := muxdrv.Sign(k, roothash.NewEvidenceTx(m.muxNonce(k.Address()), muxdrv.Fee(10, muxBigGas), ev))
+			checkOne(raw, "evidence:"+c.Origin)
+			m.muxResync()
+		}
+		// proposal equivocation evidence: optional batch signature / batch present or not, equal or
+		// unequal headers, same or different node
+		for mask := 0; mask < 64; mask++ {
+			mkp := func(m int, bh byte) commitment.Proposal {
+				p := commitment.Proposal{NodeID: evKey(1), Header: commitment.ProposalHeader{Round: 5, PreviousHash: evHash(9), BatchHash: evHash(bh)}}
+				if m&1 != 0 {
+					p.BatchSignature = &signature.RawSignature{}
+				}
+				if m&2 != 0 {
+					p.Batch = []hash.Hash{evHash(1)}
+				}
+				if m&4 != 0 {
+					p.Header.Round = 6
+				}
+				return p
+			}
+			pa, pb := mkp(mask&7, 3), mkp(mask>>3, 4)
+			if mask%5 == 0 {
+				pb.Header = pa.Header
+			}
+			ev := &roothash.Evidence{ID: m.rt1, EquivocationProposal: &roothash.EquivocationProposalEvidence{ProposalA: pa, ProposalB: pb}}
+			if mask%7 == 0 { // both kinds set / none set
+				ev.EquivocationExecutor = &roothash.EquivocationExecutorEvidence{}
+			}
+			raw := muxdrv.Sign(k, roothash.NewEvidenceTx(m.muxNonce(k.Address()), muxdrv.Fee(10, muxBigGas), ev))
+			checkOne(raw, "evidence:proposal")
+			m.muxResync()
+		}
+		checkOne(muxdrv.Sign(k, roothash.NewEvidenceTx(m.muxNonce(k.Address()), muxdrv.Fee(10, muxBigGas), &roothash.Evidence{ID: m.rt1})), "evidence:empty")
+		sum.Count("mux:structured", "roothash.Evidence")
+	}
 	g0 := runtime.NumGoroutine()
 	over, maxTx := m.oversize()
 	sum.Extra["max_tx_size"] = maxTx
